@@ -5,7 +5,9 @@ event it evaluates the Lean model and prints `ok <line>` or `MISMATCH <line> <ob
 
 * `rej poly <op> … got=<class> … | key=value …` — the documented exception class is `precond`'s;
 * `mk <machine> <n> k=<k> of=<events> result=<completed|class> leak=<blocks> bad=<n> invalid=<0|1>` — one faulted
-  run of a protocol whose allocation events map 1:1 to the events of the allocation machine. -/
+  run of a protocol whose allocation events map 1:1 to the events of the allocation machine.  The run is compared with
+  the machine of the repaired protocol; `ok-as-written` = it agrees with the historical machine instead (the
+  repair of /verif/fixes is not in the tree: the defect itself is reported from the fault journal). -/
 open PPLV.Alloc
 
 def kvGet (toks : List String) (k : String) : String :=
@@ -14,13 +16,14 @@ def kvGet (toks : List String) (k : String) : String :=
     | _ => none
   (kv.lookup k).getD ""
 
-def machineRun (name : String) (n k : Nat) : Option Outcome :=
+/-- (machine following the repaired code, historical as-written machine if it differs) -/
+def machineRun (name : String) (n k : Nat) : Option (Outcome × Option Outcome) :=
   match name with
-  | "cotree_iter" | "cotree_iter_from_dense" => some (Run.cotreeIter n 0 k)
-  | "cotree_copy" => some (Run.cotreeCopy (List.replicate n true) 0 k)
-  | "cotree_assign" => some (Run.cotreeAssign 3 (List.replicate n true) 0 k)
-  | "dense_copy" => some (Run.denseCopy n (n + 2) 0 k)
-  | "dense_assign_sparse_realloc" => some (Run.denseAssignSparse 3 3 4 0 k)
+  | "cotree_iter" | "cotree_iter_from_dense" => some (Run.cotreeIter n 0 k, some (Run.cotreeIterAsWritten n 0 k))
+  | "cotree_copy" => some (Run.cotreeCopy (List.replicate n true) 0 k, none)
+  | "cotree_assign" => some (Run.cotreeAssign 3 (List.replicate n true) 0 k, some (Run.cotreeAssignAsWritten 3 (List.replicate n true) 0 k))
+  | "dense_copy" => some (Run.denseCopy n (n + 2) 0 k, none)
+  | "dense_assign_sparse_realloc" => some (Run.denseAssignSparse 3 3 4 0 k, some (Run.denseAssignSparseAsWritten 3 3 4 0 k))
   | _ => none
 
 def main (_args : List String) : IO UInt32 := do
@@ -28,6 +31,7 @@ def main (_args : List String) : IO UInt32 := do
   let mut lineNo : Nat := 0
   let mut nOk : Nat := 0
   let mut nBad : Nat := 0
+  let mut nHist : Nat := 0
   repeat
     let line ← stdin.getLine
     if line.isEmpty then break
@@ -47,18 +51,21 @@ def main (_args : List String) : IO UInt32 := do
       let k := (kvGet rest "k").toNat?.getD 0
       match machineRun name n k with
       | none => pure ()
-      | some o =>
+      | some (o, hist) =>
         let leak := (kvGet rest "leak").toNat?.getD 0
         let bad := (kvGet rest "bad").toNat?.getD 0
         let thrown := kvGet rest "result" != "completed"
         let invalid := kvGet rest "invalid" == "1"
         let events := (kvGet rest "of").toNat?.getD 0
-        let mEvents := (machineRun name n 1000000).map (·.events) |>.getD 0
-        let okAll := o.live.length == leak && o.bad == bad && o.thrown == thrown && (!o.valid) == invalid && events == mEvents
-        if okAll then IO.println s!"ok {lineNo}"; nOk := nOk + 1
+        let mEvents := (machineRun name n 1000000).map (·.1.events) |>.getD 0
+        let agrees (m : Outcome) : Bool :=
+          m.live.length == leak && m.bad == bad && m.thrown == thrown && (!m.valid) == invalid && events == mEvents
+        if agrees o then IO.println s!"ok {lineNo}"; nOk := nOk + 1
+        else if (hist.map agrees).getD false then
+          IO.println s!"ok-as-written {lineNo} {name}"; nHist := nHist + 1
         else
           IO.println s!"MISMATCH {lineNo} machine {name} n={n} k={k} model(leak={o.live.length},bad={o.bad},thrown={o.thrown},valid={o.valid},events={mEvents}) library(leak={leak},bad={bad},thrown={thrown},invalid={invalid},events={events})"
           nBad := nBad + 1
     | _ => pure ()
-  IO.println s!"summary ok={nOk} mismatch={nBad}"
+  IO.println s!"summary ok={nOk} as_written={nHist} mismatch={nBad}"
   return 0
